@@ -133,6 +133,7 @@ type FnResult struct {
 	sweep      bool
 	SafetyTag  string
 	Retried    bool
+	noNeg      bool // re-examination: do not trust remembered "candidate not proved" outcomes
 }
 
 type VerifyOpts struct {
@@ -275,16 +276,28 @@ func (x *Exec) exitObligations(fr *frame, fn *ssa.Function, con *FnContract, pkg
 	}
 	bindResults(post.vars, resultNames(con, fn.Signature), fn.Signature.Results(), vals)
 	if recvInv {
-		t, err := post.EvalBool(&ECall{Fn: "typeinv", Args: []Expr{&EIdent{fn.Params[0].Name()}}})
-		if err == nil {
-			tag := ""
-			if con != nil {
-				tag = con.Opts["typeinv-tag"]
+		// one obligation per clause of the representation invariant, so that a recorded
+		// finding about one clause never hides a violation of another
+		ti := x.typeInvOf(fn.Params[0].Type())
+		tag := ""
+		if con != nil {
+			tag = con.Opts["typeinv-tag"]
+		}
+		if tag == "" {
+			tag = x.p.cs.TypeInvTag(ti)
+		}
+		recv := post.vars[fn.Params[0].Name()]
+		for i, cl := range ti.Clauses {
+			ne := &Env{x: x, st: out, old: fr.entrySt, vars: map[string]Value{ti.Self: recv}, pkg: namedOf(recv.T).Obj().Pkg(), ovars: fr.params}
+			t, err := ne.EvalBool(cl.E)
+			if err != nil {
+				x.stale(fr, cl, err)
+				continue
 			}
-			if tag == "" {
-				tag = x.p.cs.TypeInvTag(x.typeInvOf(fn.Params[0].Type()))
+			o := x.oblige(fr, out, "typeinv", fmt.Sprintf("exit/inv%d", i+1), x.exitPos, t, "property", tag)
+			if o != nil {
+				o.Notes = append(o.Notes, cl.Src)
 			}
-			x.oblige(fr, out, "typeinv", "exit", x.exitPos, t, "property",tag)
 		}
 	}
 	if con != nil {
@@ -395,7 +408,15 @@ func solveAll(res *FnResult, timeout, candTimeout time.Duration) {
 					}
 				}
 				script := c.Script(o.snap, o.pc, o.goal, extra, true, o.exclude...)
-				o.Result = Solve(script, tmo)
+				if o.candID >= 0 && !noCache && !res.noNeg && packedUnproved(hashText(script)) {
+					// this exact candidate check was tried and not proved before
+					o.Result = SolveResult{Verdict: "unknown", Solver: "cache", Cached: true}
+					usedMu.Lock()
+					usedKeys[hashText(script)] = true
+					usedMu.Unlock()
+				} else {
+					o.Result = Solve(script, tmo)
+				}
 				o.script = script
 			}(o)
 		}
@@ -452,6 +473,12 @@ func main() {
 			code = cmdFn(os.Args[2:])
 		case "check":
 			code = cmdCheck(os.Args[2:])
+		case "pack-cache":
+			kf := ""
+			if len(os.Args) > 2 {
+				kf = os.Args[2]
+			}
+			code = cmdPackCache(kf)
 		default:
 			fmt.Fprintln(os.Stderr, "unknown command")
 			code = 2
